@@ -90,7 +90,7 @@ def extension_fo(G, P):
 def pdag_to_dag(P: Arr2) -> Arr2:
     requires(pdag_ok(P))
     ghost_code(at='entry', code='ghost_rk = np.zeros(len(P))')
-    ghost_code(before='all_but_i = list(set(range(len(P))) - {i})', code='ghost_rk[real_i] = len(P)')
+    ghost_code(before=['all_but_i = list(set(range(len(P))) - {i})', 'indexes.remove(real_i)'], code='ghost_rk[real_i] = len(indexes)')
     raises(ValueError, when=not has_extension(P), assumed_on_raise='completeness of the Dor-Tarsi search (L-DT), decided by vkb.c09 on all PDAGs up to the bound')
     hint(acyclic_if_ranked(result, lambda x: ghost_rk[x]), at='return')
     ensures(extension_fo(result, P))
